@@ -365,7 +365,20 @@ def rule_reset(check):
                 continue
             b = v.bindings().get(int(r.split("#")[1]))
             init = b["origin"][1] if b and b["origin"][0] == "let" else None
-            if init is not None and any(hir.is_call(x) and hir.callee_name(x) in guards for x in hir.walk(init)):
+            # a reborrow of a named guard: `let mut guard = self.with_child_ctx(); let opv = &mut *guard;`
+            inits = [init] if init is not None else []
+            for _ in range(3):
+                more = []
+                for i_ in inits:
+                    for x in hir.walk(i_):
+                        lx = hir.local_of(x) if x.get("k") == "Path" else None
+                        bx = v.bindings().get(lx[0]) if lx else None
+                        if bx and bx["origin"][0] == "let" and bx["origin"][1] is not None and all(bx["origin"][1] is not y for y in inits + more):
+                            more.append(bx["origin"][1])
+                if not more:
+                    break
+                inits += more
+            if any(hir.is_call(x) and hir.callee_name(x) in guards for i_ in inits for x in hir.walk(i_)):
                 guard_ok = True
             elif init is not None:
                 # with_ctx(c) where c can only be a child context
